@@ -78,6 +78,7 @@ type c01Gate struct {
 	orig    DocChangedFunc
 	mu      sync.Mutex // held / buffered
 	held    map[string]bool
+	seen    map[string]int // document mutations that have reached the gate, per key
 	buf     map[string][]sgbucket.FeedEvent
 	callMu  sync.Mutex // serialises every DocChanged call: the snapshots below are exact
 	events  []c01DedupEvent
@@ -93,6 +94,7 @@ func c01CopyEvent(ev sgbucket.FeedEvent) sgbucket.FeedEvent {
 func (g *c01Gate) onEvent(ev sgbucket.FeedEvent, dt DocumentType) {
 	if dt == DocTypeDocument {
 		g.mu.Lock()
+		g.seen[string(ev.Key)]++
 		if g.held[string(ev.Key)] {
 			g.buf[string(ev.Key)] = append(g.buf[string(ev.Key)], c01CopyEvent(ev))
 			g.mu.Unlock()
@@ -141,7 +143,18 @@ func (g *c01Gate) deliver(ev sgbucket.FeedEvent, dt DocumentType, deduped int) {
 	g.orig(ev, dt)
 }
 
-func (g *c01Gate) hold(docid string) {
+// closes the gate for the document once every mutation written so far has passed it (a feed delivers the mutations
+// of one key in order: an older mutation still in flight must not be mistaken for one of the rapid updates)
+func (g *c01Gate) hold(docid string, writtenSoFar int) {
+	for dl := time.Now().Add(10 * time.Second); time.Now().Before(dl); {
+		g.mu.Lock()
+		n := g.seen[docid]
+		g.mu.Unlock()
+		if n >= writtenSoFar {
+			break
+		}
+		time.Sleep(time.Millisecond)
+	}
 	g.mu.Lock()
 	g.held[docid] = true
 	g.mu.Unlock()
@@ -178,14 +191,20 @@ func (s *c01Sys) installGate() {
 	s.impl, _ = cc.channelCache.(*channelCacheImpl)
 	s.recCache = &c01RecCache{ChannelCache: cc.channelCache}
 	cc.channelCache = s.recCache
-	s.gate = &c01Gate{s: s, orig: cc.DocChanged, held: map[string]bool{}, buf: map[string][]sgbucket.FeedEvent{}, deletedRebuilt: map[uint64]bool{}}
+	s.gate = &c01Gate{s: s, orig: cc.DocChanged, held: map[string]bool{}, seen: map[string]int{}, buf: map[string][]sgbucket.FeedEvent{}, deletedRebuilt: map[uint64]bool{}}
 	s.db.mutationListener.OnChangeCallback = s.gate.onEvent
 }
 
 // rapid updates of one document whose mutations the feed deduplicates; writes of other documents in between pass
 func (s *c01Sys) rapid(r *vRand, docN uint64) {
 	docid := fmt.Sprintf("doc%d", docN)
-	s.gate.hold(docid)
+	before := 0
+	for _, h := range s.hist {
+		if h.Doc == docN {
+			before++
+		}
+	}
+	s.gate.hold(docid, before)
 	written := 0
 	for i, n := 0, 2+r.Intn(2); i < n; i++ {
 		h0 := len(s.hist)
@@ -380,13 +399,12 @@ func (s *c01Sys) systemCacheInv(phase string) {
 	}
 }
 
-// Known shape of a genuine defect of the unchanged code (C01_Refuted.v): the removal entry reconstructed for a
-// deduplicated DELETION lacks the Deleted flag, so a row served from a warm cache says {removed} where the channel
-// query -- and the specification -- say {deleted, removed}.  Such a row is REPORTED (its own stable signature) and
-// then carried on with the flag of the specification, so that this one defect does not also surface as unrelated
-// cache-independence / correspondence failures.  Only rows at sequences the gate saw being reconstructed from a
-// deletion are touched; any other difference stays a failure of the generic monitors.
-func (s *c01Sys) normalizeRebuiltDeletion(what string, rows []c01Row) []c01Row {
+// A defect this check found and /repo repaired (commit 1bb148f; C01_Refuted.v keeps the witness on the old-code
+// instance of the model): the removal entry reconstructed for a deduplicated DELETION lacked the Deleted flag, so a
+// row served from a warm cache said {removed} where the channel query -- and the specification -- say {deleted,
+// removed}.  Such a row is reported under its own stable signature; the rows are NOT altered, so on a tree without
+// the repair the generic monitors and the correspondence fail as well.
+func (s *c01Sys) reportRebuiltDeletion(what string, rows []c01Row) []c01Row {
 	if s.gate == nil {
 		return rows
 	}
@@ -406,8 +424,7 @@ func (s *c01Sys) normalizeRebuiltDeletion(what string, rows []c01Row) []c01Row {
 		if rebuilt && histDel {
 			s.fail("dedup_reconstruction", "deduplicated-deletion-removal-lacks-deleted-flag", map[string]any{"history": s.histDesc(), "request": what, "cache": s.cfg},
 				fmt.Sprintf("row %s: doc%d was DELETED at #%d (leaving the channels %v); that mutation was deduplicated on the feed and the removal entry reconstructed from recent_sequences carries no Deleted flag: the warm cache answers without deleted:true, a cold cache (channel query) with it", r, r.ID, r.S, c01ChanStrings(r.Rm)))
-			rows[i].Del = true
-			s.rec.Err("row-of-rebuilt-deletion-normalised")
+			_ = i
 		}
 	}
 	return rows
